@@ -30,6 +30,12 @@ CORPUS = [
     # generated C, never by the Python view) address the offset table, which is kept in memory order
     ("array", ("string",), [None, 4], [1, 0]),
     ("array", ("array", ("scalar", 2), [None], [0]), [2, None, 2], [2, 0, 1]),
+    # two DIFFERENT array types under one class name (the name does not encode the axis order), generated and compiled one after
+    # the other in this process: each must get the accessors of ITS layout
+    ("array", ("scalar", 0), [3, 4], [0, 1]),
+    ("array", ("scalar", 0), [3, 4], [1, 0]),
+    ("array", ("scalar", 4), [None, 2, 3], [0, 1, 2]),
+    ("array", ("scalar", 4), [None, 2, 3], [2, 0, 1]),
     # three array levels on one path: the index arguments are numbered across the levels
     ("struct", "Grid", [("cells", ("array", ("struct", "Cell", [("corners", ("array", ("struct", "Corner", [("coords", ("array", ("scalar", 0), [3], [0]))]), [2, 2], [0, 1]))]), [None], [0]))]),
 ]
